@@ -50,7 +50,9 @@ class DPADistinguisherMixin(DistinguisherMixin):
         processed_zeros = self.processed_traces - self.processed_ones
         accumulator_zeros = self.accumulator_traces - self.accumulator_ones
         normalized_zeros = (accumulator_zeros.swapaxes(0, 1) / processed_zeros).swapaxes(0, 1)
-        return (normalized_ones - normalized_zeros)
+        result = normalized_ones - normalized_zeros
+        result[(self.processed_ones == 0) | (processed_zeros == 0)] = _np.nan  # a mean over an empty class is undefined
+        return result
 
     @property
     def _distinguisher_str(self):
